@@ -27,7 +27,8 @@ def run_case(case, rng):
     from mon.gen import build as Bd
 
     n_max = 12 if case.tier == "thorough" and rng.random() < 0.3 else 7
-    sp = G.random_spec(rng, "proper", n_max=n_max, allow_implicit=False)
+    sp = G.random_spec(rng, "proper", n_max=n_max, allow_implicit=False,
+                       reward_scale=rng.choice([1.0, 1.0, 1.0, 30.0]))
     # initial mass on absorbing states on purpose
     if rng.random() < 0.35 and sp.flag:
         ab = rng.choice(sorted(sp.flag, key=repr))
